@@ -113,6 +113,13 @@ def run_case(base, case, acc):
     genes = sorted(g.id for g in model.genes)
     ident = {"base": base, "case": case, "rules": {k: gen.gpr_text(v) for k, v in rules.items() if v is not None}}
     nseq = 0
+    copied_first = rng.random() < 0.3
+    if copied_first and len(model.reactions):
+        # object-level copies taken beforehand (Reaction.copy, *, +) must leave the model's
+        # genes attached: a later knock-out inside a context has to be undone on exit
+        for r in rng.sample(list(model.reactions), min(3, len(model.reactions))):
+            _c = r.copy() if rng.random() < 0.5 else (r * 2 if rng.random() < 0.5 else r + r)
+        acc.count("models_with_reactions_copied_beforehand")
     for k in range(0, len(genes) + 1):
         for subset in itertools.combinations(genes, k):
             orders = list(itertools.permutations(subset)) if k <= 4 else [subset, tuple(reversed(subset))]
@@ -141,8 +148,15 @@ def run_case(base, case, acc):
                             acc.add("mixed_routes", route)
                             if route == "copy-then-Gene.knock_out":
                                 if in_ctx:
-                                    continue
-                                m = m.copy()
+                                    # the copy is taken while the original's context is open;
+                                    # leaving that context afterwards must not reach the copy
+                                    owner = m
+                                    m = owner.copy()
+                                    owner.__exit__(None, None, None)
+                                    in_ctx = False
+                                    acc.count("copies_taken_inside_an_open_context")
+                                else:
+                                    m = m.copy()
                                 acc.count("copies_between_knock_outs")
                                 ok = compare(acc, m, rules, orig, knocked, (), dict(ctx, route=route), "Model.copy-between-knock-outs")
                                 if not ok:
@@ -217,6 +231,9 @@ def run_case(base, case, acc):
                     with warnings.catch_warnings():
                         warnings.simplefilter("ignore")
                         model = gen.build(rec)
+                    if copied_first and len(model.reactions):
+                        for r in list(model.reactions)[:3]:
+                            _c = r.copy()
                 nseq += 1
     acc.count("sequences", nseq)
     acc.count("models")
